@@ -473,13 +473,21 @@ theorem holds_found {r : Req} {o : Resp} {e : Expect} (hauth : authorized r = tr
     exact List.any_eq_true.mpr ⟨e, hmem, hc⟩
 
 theorem serve_gen (t : List Route) (r : Req) :
-    serve Gen.chain t r =
+    serve (Gen.chain false) t r =
       if authorized r then (if preflight r then { status := 204, body := .docs 0, ops := [] } else router t r)
       else { status := 401, body := .docs 1, ops := [] } := by
   simp [Gen.chain, serve]
 
-theorem serve_genTracing (t : List Route) (r : Req) : serve Gen.chainTracing t r = serve Gen.chain t r := by
-  simp [Gen.chain, Gen.chainTracing, serve]
+theorem serve_genTracing (t : List Route) (r : Req) : serve (Gen.chain true) t r = serve (Gen.chain false) t r := by
+  simp [Gen.chain, serve]
+
+/-- whatever cfg.Tracing is, the served chain behaves the same (the ochttp layer passes requests through, and it
+    sits outside the credential check) -/
+theorem handle_any_tracing (tr : Bool) (t : List Route) (r : Req) :
+    handle (Gen.chain tr) t r = handle (Gen.chain false) t r := by
+  cases tr
+  · rfl
+  · unfold handle; rw [serve_genTracing]
 
 /-- a response that performs nothing and whose body is right for the request kind -/
 theorem holds_unauthorized {r : Req} (h : authorized r = false) :
@@ -538,14 +546,14 @@ theorem expectations_no_head : expectations.all (fun e => e.method != "HEAD") = 
 theorem router_cases (t : List Route) (hal : aligned t expectations = true) (r : Req)
     (ha : authorized r = true) (hp : preflight r = false) :
     (nonCanonical r = true ∧ ∃ b, (b = .docs 0 ∨ b = .junk 0) ∧
-        handle Gen.chain t r = headAdjust r { status := 301, body := b, ops := [] }) ∨
+        handle (Gen.chain false) t r = headAdjust r { status := 301, body := b, ops := [] }) ∨
     (nonCanonical r = false ∧ r.method ≠ "HEAD" ∧ ∃ e h, e ∈ expectations ∧ addresses e r = true ∧
-        shapeOf h = some e.shape ∧ handle Gen.chain t r = runHandler h r e.pat) ∨
+        shapeOf h = some e.shape ∧ handle (Gen.chain false) t r = runHandler h r e.pat) ∨
     (expectations.filter (fun e => addresses e r) = [] ∧
-        handle Gen.chain t r = headAdjust r { status := 404, body := .docs 1, ops := [] }) ∨
+        handle (Gen.chain false) t r = headAdjust r { status := 404, body := .docs 1, ops := [] }) ∨
     (expectations.filter (fun e => addresses e r) = [] ∧
         expectations.any (fun e => matchPat e.pat r.segs r.slash) = true ∧
-        handle Gen.chain t r = headAdjust r { status := 405, body := .docs 1, ops := [] }) := by
+        handle (Gen.chain false) t r = headAdjust r { status := 405, body := .docs 1, ops := [] }) := by
   unfold handle
   rw [serve_gen]
   simp only [ha, hp, if_true, Bool.false_eq_true, if_false]
@@ -672,7 +680,7 @@ def segOK (s : Seg) : Prop := s.txt ≠ "" ∧ s.txt ≠ "recover" ∧ s.txt ≠
 
 theorem handle_mkReq (cfg : CliCfg) (m : String) (segs : List Seg) (q : List (String × QV)) (md : List (Nat × Nat)) (b : Body)
     (hm : m ≠ "HEAD") :
-    handle Gen.chain Gen.routes (mkReq cfg m segs q md b) =
+    handle (Gen.chain false) Gen.routes (mkReq cfg m segs q md b) =
       if cliAuthorized cfg then router Gen.routes (mkReq cfg m segs q md b)
       else { status := 401, body := .docs 1, ops := [] } := by
   unfold handle headAdjust
@@ -686,6 +694,22 @@ theorem follow_of_ne301 (chain : List String) (t : List Route) (r : Req) (o : Re
   | zero => rfl
   | succ k => simp [followRedirects, h]
 
+theorem follow_any_tracing (tr : Bool) (t : List Route) :
+    ∀ (n : Nat) (r : Req) (o : Resp), followRedirects (Gen.chain tr) t r o n = followRedirects (Gen.chain false) t r o n
+  | 0, _, _ => rfl
+  | n + 1, r, o => by
+    unfold followRedirects
+    split
+    · simp only [handle_any_tracing tr]; exact follow_any_tracing tr t n _ _
+    · rfl
+
+theorem clientCall_any_tracing (tr : Bool) (t : List Route) (cfg : CliCfg) (c : Call) :
+    clientCall (Gen.chain tr) t cfg c = clientCall (Gen.chain false) t cfg c := by
+  unfold clientCall
+  cases build cfg c with
+  | none => rfl
+  | some r => simp only [handle_any_tracing tr, follow_any_tracing tr]
+
 theorem cli_ok_of_respond {cfg : CliCfg} {c : Call} {w : Want} {m : String} {segs : List Seg} {q : List (String × QV)}
     {md : List (Nat × Nat)} {b : Body} (op : Op) (okSt okDocs errSt nfSt : Nat)
     (hnc : callNonCanonical c = false)
@@ -693,9 +717,9 @@ theorem cli_ok_of_respond {cfg : CliCfg} {c : Call} {w : Want} {m : String} {seg
     (hroute : router Gen.routes (mkReq cfg m segs q md b) = respond (mkReq cfg m segs q md b) op okSt okDocs errSt nfSt)
     (hok : w.ok op = true) (hst : (okSt = 200 ∨ okSt = 204) ∧ 400 ≤ errSt ∧ 400 ≤ nfSt)
     (hor : answerHasOrigins c = false) :
-    cliHolds cfg c (clientCall Gen.chain Gen.routes cfg c).1 (clientCall Gen.chain Gen.routes cfg c).2 = true := by
+    cliHolds cfg c (clientCall (Gen.chain false) Gen.routes cfg c).1 (clientCall (Gen.chain false) Gen.routes cfg c).2 = true := by
   obtain ⟨h1, h2, h3⟩ := hst
-  have hne : (handle Gen.chain Gen.routes (mkReq cfg m segs q md b)).status ≠ 301 := by
+  have hne : (handle (Gen.chain false) Gen.routes (mkReq cfg m segs q md b)).status ≠ 301 := by
     rw [handle_mkReq cfg m segs q md b hm]
     cases ha : cliAuthorized cfg
     · simp
@@ -730,7 +754,7 @@ macro_rules
         boolQ, varSeg, parseCid, Option.bind, pick, fromQuery, assemble, M.mode, M.factors, M.ualloc, M.expiry, M.expireIn, hasGarbled, intParam, natParam, nameParam, optCidParam, natsParam, metaOf, normMeta, pinWithOpts, *])
 
 def CliHolds (cfg : CliCfg) (c : Call) : Prop :=
-  cliHolds cfg c (clientCall Gen.chain Gen.routes cfg c).1 (clientCall Gen.chain Gen.routes cfg c).2 = true
+  cliHolds cfg c (clientCall (Gen.chain false) Gen.routes cfg c).1 (clientCall (Gen.chain false) Gen.routes cfg c).2 = true
 
 
 theorem ok3 : (200 = 200 ∨ 200 = 204) ∧ 400 ≤ 500 ∧ 400 ≤ 500 := by decide
@@ -973,11 +997,11 @@ theorem client_unpinPath (cfg : CliCfg) (p : List Seg) (hs : ∀ s ∈ p, segOK 
 /-! ### small facts about the generated chain used by Props -/
 
 theorem handle_unauthorized (t : List Route) (r : Req) (h : authorized r = false) :
-    handle Gen.chain t r = headAdjust r { status := 401, body := .docs 1, ops := [] } := by
+    handle (Gen.chain false) t r = headAdjust r { status := 401, body := .docs 1, ops := [] } := by
   unfold handle; rw [serve_gen]; simp [h]
 
 theorem handle_preflight (t : List Route) (r : Req) (ha : authorized r = true) (h : preflight r = true) :
-    handle Gen.chain t r = headAdjust r { status := 204, body := .docs 0, ops := [] } := by
+    handle (Gen.chain false) t r = headAdjust r { status := 204, body := .docs 0, ops := [] } := by
   unfold handle; rw [serve_gen]; simp [ha, h]
 
 /-- what `holds` says about the body -/
